@@ -230,7 +230,33 @@ def sel_defs(Mk, order):
     return arr.sel_axioms(unmasked_vec(Mk, order))
 
 
+def default_of(repo, qual, param):
+    """source text of the default value of a parameter (None if it has none)"""
+    import ast
+    fi = repo.func(qual)
+    a = fi.node.args
+    pos = a.posonlyargs + a.args
+    for p_, d in zip(reversed(pos), reversed(a.defaults)):
+        if p_.arg == param:
+            return ast.unparse(d)
+    for p_, d in zip(a.kwonlyargs, a.kw_defaults):
+        if p_.arg == param and d is not None:
+            return ast.unparse(d)
+    return None
+
+
+def register_default_facts(reg):
+    """the round trip is usually written with the default memory order on both sides: the two defaults must agree (and be C, as documented)"""
+    repo = getattr(reg, "repo", None)
+    if repo is None:
+        return
+    d1, d2 = default_of(repo, f"{M}.to_compressed", "order"), default_of(repo, f"{M}.from_compressed", "order")
+    reg.facts.append(("defaults<to_compressed.order,from_compressed.order>", ["C18.1", "C16.1"], d1 == d2 == "'C'",
+                      f"default memory order of to_compressed is {d1}, of from_compressed {d2}: both must be 'C' (a round trip written with defaults must be the identity)"))
+
+
 def register_compress(reg):
+    register_default_facts(reg)
     for d in COMP_RANKS:
         for order in ("C", "F"):
             A = arr.fresh_arr(f"XA{d}", d, "real")
